@@ -81,7 +81,9 @@ Res(j)    == [i \in 1..Len(j) |-> j[i].r]
 (***************************************************************************)
 FracChoices(a, w) ==
   IF a.kind # "orderbook" THEN { <<>> }
-  ELSE LET all == [1..Len(a.orders) -> ((0 - w)..(a.fden + w))]
+  ELSE LET all == { f \in [1..Len(a.orders) -> ((0 - w)..(a.fden + w))] :
+                        \* the fraction of an order that covers no step is immaterial: no near-miss on it
+                        \A o \in 1..Len(a.orders) : OrderInert(cfg, a.orders[o]) => f[o] \in 0..a.fden }
        IN { f \in all : OrderFracChk(a, f) = "" \/ (w = 1 /\ OrderFracChk(a, f) \in Relax) }
 
 Init ==
